@@ -3,6 +3,7 @@
 -/
 import Lean.Data.Json
 import Prov.Eq
+import Prov.Json
 
 open Lean
 namespace Driver
@@ -109,5 +110,46 @@ partial def encCont (h : Heap) (c : Nat) : Json :=
     ("id", encOptQ k.id)] : List (String × Json)) ++ encMgr (h.mgrOf c) ++ [
     ("records", Json.arr (k.records.map (fun r => encRecord (h.recCell r).r)).toArray),
     ("bundles", Json.arr (k.bundles.map (fun p => Json.arr #[encQ p.1, encCont h p.2])).toArray)])
+
+
+/-! ### JSON trees of the PROV-JSON model travel in a tagged encoding that keeps key order:
+    null | bool | string | {"i": "123"} | {"f": {float atom}} | {"a": [...]} | {"o": [[k, v], ...]} -/
+
+partial def decJVal (j : Json) : R JVal := do
+  match j with
+  | .null => return .null
+  | .bool b => return .bool b
+  | .str s => return .str s
+  | _ =>
+    match field? j "i" with
+    | some i => return .int (← decIntStr i)
+    | none =>
+      match field? j "f" with
+      | some f => return .float (← decFloat f)
+      | none =>
+        match field? j "a" with
+        | some a =>
+          let l ← (← a.getArr?).toList.mapM decJVal
+          return .arr l
+        | none =>
+          match field? j "o" with
+          | some o =>
+            let l ← (← o.getArr?).toList.mapM (fun e => do
+              let pr ← e.getArr?
+              if pr.size != 2 then throw "pair expected"
+              let k ← pr[0]!.getStr?
+              let v ← decJVal pr[1]!
+              pure (k, v))
+            return .obj l
+          | none => throw s!"bad JVal {j.compress}"
+
+partial def encJVal : JVal → Json
+  | .null => Json.null
+  | .bool b => Json.bool b
+  | .str s => Json.str s
+  | .int n => Json.mkObj [("i", Json.str (toString n))]
+  | .float f => Json.mkObj [("f", Json.str f.repr)]
+  | .arr l => Json.mkObj [("a", Json.arr (l.map encJVal).toArray)]
+  | .obj kvs => Json.mkObj [("o", Json.arr (kvs.map (fun p => Json.arr #[Json.str p.1, encJVal p.2])).toArray)]
 
 end Driver
